@@ -330,6 +330,10 @@ int sm4_gcm_decrypt_finish(SM4_GCM_CTX *ctx, uint8_t *out, size_t *outlen)
 
 	gmssl_memxor(mac, mac, ctx->Y, ctx->taglen);
 	if (memcmp(mac, ctx->mac, ctx->taglen) != 0) {
+		// the GHASH state is consumed: leave the context in a state that every
+		// later update/finish refuses, it must not verify anything else
+		ctx->maclen = GHASH_SIZE;
+		ctx->taglen = 0;
 		error_print();
 		return -1;
 	}
